@@ -101,7 +101,8 @@ def eval_call(I: Interp, node: ast.Call, fr: Frame):
                 base = I.to_sv(I.ev(a0.value, fr))
                 return SV(I.slice_seqid(base, a0.slice, fr), T.ANY)
             v = I.to_sv(I.ev(a0, fr))
-            return SV(z3.Select(st.arr("f:$seq"), smt.rid(v.t)), T.ANY)
+            # content identity of a container; non-references stand for themselves; an empty dict literal is EMPTY
+            return SV(z3.If(smt.is_ref(v.t), z3.Select(st.arr("f:$seq"), smt.rid(v.t)), v.t), T.ANY)
         if n in REG.ufuns:
             nargs, ret = REG.ufuns[n]
             args = [I.to_sv(I.ev(a, fr)).t for a in node.args]
@@ -130,6 +131,7 @@ def eval_call(I: Interp, node: ast.Call, fr: Frame):
             d = I.to_sv(I.ev(node.args[0], fr))
             j, _ = I.num(I.ev(node.args[1], fr))
             dty = T.strip_opt(d.ty)
+            I.assume_dict_wf(SV(d.t, dty if dty.k in ("dict", "set") else T.DICT()))
             k = SV(z3.Select(z3.Select(st.arr("dkeys"), smt.rid(d.t)), j), dty.a[0] if dty.k == "dict" and dty.a else T.ANY)
             if n == "dict_key":
                 return k
@@ -338,7 +340,7 @@ def quantifier_obj(I: Interp, node, fr, which):
     cls = I.ev(node.args[1], fr)
     if not isinstance(cls, PClass):
         raise Refuse("forall_obj: class expected")
-    if st.cfg.get("ground"):
+    if st.cfg.get("ground") and st.cfg.get("ground_objs"):
         parts = []
         seen = set()
         for term, ci in list(st.objs):
@@ -565,6 +567,18 @@ def apply_contract(I: Interp, con: Contract, finfo: FuncInfo, selfv, args, kwarg
     is_method = owner is not None and not finfo.is_staticmethod
     bind_params(I, finfo.node, sf, selfv, args, kwargs, is_method, finfo.module, owner)
     line = getattr(node, "lineno", 0)
+    if st.binder_asms:
+        # under a quantifier binder (comprehension / any / all body) a fresh result would not depend on the bound
+        # variable: only pure contracts whose first clause *defines* the result (`result == E`) can be used, as E
+        first = parse_expr(con.ensures[0][1]) if con.ensures else None
+        if con.modifies == [] and isinstance(first, ast.Compare) and len(first.ops) == 1 and isinstance(first.ops[0], ast.Eq) \
+                and isinstance(first.left, ast.Name) and first.left.id == "result":
+            st.spec_depth += 1
+            try:
+                return I.ev(first.comparators[0], sf)
+            finally:
+                st.spec_depth -= 1
+        raise Refuse(f"call of {finfo.key} under a quantifier binder needs a pure contract of the form `result == E`")
     for label, e in con.requires:
         st.oblige("callpre", f"{finfo.qualname}.{label}@L{line}", spec_bool(I, e, sf), line)
     for label, e in con.axioms:
@@ -679,7 +693,7 @@ def _havoc(I: Interp, modifies, sf: Frame):
             st.assume(ev2 >= st.events_len)
             st.events_len = ev2
             for k in list(st.heap.keys()):
-                if k == "cls" or k.startswith("__"):
+                if k in ("cls", "ctag") or k.startswith("__"):
                     continue
                 st.setarr(k, z3.Const(f"Hv{st.n_fresh}_{k}", st.heap[k].sort()))
                 st.n_fresh += 1
